@@ -71,13 +71,20 @@ class HangAlarm(BaseException):
 
 
 # ----------------------------------------------------------------------------------- scenario sources
-def scenario_source(kind: str, inherit: bool, docA: str, docB: str) -> Tuple[str, Dict[str, str]]:
+def scenario_source(kind: str, inherit: bool, docA: str, docB: str, dup: bool = False) -> Tuple[str, Dict[str, str]]:
     """A module holding A, B and the bystander X. Returns (source, names of A / B / X)."""
     fine = '"""Fine docstring of `other`."""'
     a, b = repr(docA), repr(docB)
     if kind == "module":
         src = f"{a}\nv = 1\ndef fb(x):\n    {b}\ndef other():\n    {fine}\n"
         names = {"A": "m", "B": "m.fb", "V": "m.v"}
+    elif kind in ("class", "cls") and dup:
+        # A is a NESTED class (its docstring is parsed while the module is built) of a class that is defined twice: the
+        # first definition, with the same text in the same place, is superseded and renamed before the second is met
+        inner = f"    class K:\n        {a}\n        v = 1\n        w = 2\n        def meth(self):\n            {fine}\n"
+        src = (f"class Outer:\n    {fine}\n{inner}class Outer:\n    {fine}\n{inner}"
+               f"def fb(x):\n    {b}\ndef other():\n    {fine}\n")
+        names = {"A": "m.Outer.K", "B": "m.fb", "V": "m.Outer.K.v", "W": "m.Outer.K.w"}
     elif kind in ("class", "cls"):
         src = (f"class K:\n    {a}\n    v = 1\n    w = 2\n    def meth(self):\n        {fine}\n"
                f"def fb(x):\n    {b}\ndef other():\n    {fine}\n")
@@ -139,7 +146,7 @@ def run_scenario(sc: Dict[str, Any]) -> Dict[str, Any]:
     # this scenario's business (within a scenario it is: the bystander X is rendered after A)
     from docutils.parsers.rst import roles as _roles
     _roles._roles.pop("", None)
-    src, names = scenario_source(kind, inherit, docA, docB)
+    src, names = scenario_source(kind, inherit, docA, docB, dup=bool(sc.get("dup")))
     try:
         tree = ast.parse(src)
     except (SyntaxError, ValueError) as e:
@@ -164,7 +171,7 @@ def run_scenario(sc: Dict[str, Any]) -> Dict[str, Any]:
                 "lvl": "warning", "tag": "none", "ann": "ok"} for o in OBJS}
     last_call = {"lost": False}
     fallback_used = {"flag": False}
-    reports: List[Tuple[str, int, bool]] = []       # (object fullName, number of messages, names the file)
+    reports: List[Tuple[Any, int, bool]] = []       # (the object reported against, number of messages, names the file)
     cur = {"o": None}
 
     def fault(o: Optional[str], key: str) -> str:
@@ -377,7 +384,7 @@ def run_scenario(sc: Dict[str, Any]) -> Dict[str, Any]:
         if errs and not had and section == "docstring":
             lines = [l for l in buf.getvalue().splitlines() if l.strip()]
             firsts = [l for l in lines if re.match(r"^.+?:(\d+|\?\?\?): bad docstring: ", l)]
-            reports.append((obj.fullName(), len(errs), len(firsts) == len(errs) and all(l.startswith(obj.description + ":") for l in firsts)))
+            reports.append((obj, len(errs), len(firsts) == len(errs) and all(l.startswith(obj.description + ":") for l in firsts)))
             who = rev.get(obj.fullName())
             if who is not None and cur["o"] == "parse:" + who:
                 seen[who]["n"] = len(errs)
@@ -480,13 +487,13 @@ def run_scenario(sc: Dict[str, Any]) -> Dict[str, Any]:
                 else:
                     st["ps"][o] = "ok"
                 st["perr"][o] = ob.fullName() in system.parse_errors["docstring"]
-                st["nrep"][o] = sum(n for (fn, n, _) in reports if fn == ob.fullName())
+                st["nrep"][o] = sum(n for (rob, n, _) in reports if rob is ob)
             return st
 
         def xstate() -> Tuple[Any, ...]:
             x = obs["X"]
             return (x.parsed_docstring is None, x.parsed_summary is None, x.fullName() in system.parse_errors["docstring"],
-                    sum(n for (fn, n, _) in reports if fn == x.fullName()))
+                    sum(n for (rob, n, _) in reports if rob is x))
 
         events: List[Dict[str, Any]] = []
         pre_exc = ""
@@ -599,7 +606,7 @@ def run_scenario(sc: Dict[str, Any]) -> Dict[str, Any]:
                 if seen[so]["node"] != "once":
                     e["st"]["pz"][o] = False
         out = {"F": F, "inherit": inherit, "kindA": model_kind(kind), "vdoc": vdoc, "aux": aux, "st0": st0, "ev": events, "frame_ok": frame_ok, "xhtml": xhtml, "whtml": whtml,
-               "reports": [[fn, n, ok] for (fn, n, ok) in reports], "names": names, "seen": seen,
+               "reports": [[rob.fullName(), n, ok] for (rob, n, ok) in reports], "names": names, "seen": seen,
                "built_parse": system.allobjects[names["A"]].parsed_docstring is not None and len(events) == 0}
     finally:
         epydoc2stan.get_parser_by_name, epydoc2stan.processtypes = orig_get_parser, orig_pt
@@ -787,8 +794,8 @@ def inj_scenario(rec: Dict[str, Any], fmt: str, pt: bool, sur: bool = False, idx
     if F["A"]["ann"] == "raises":
         kind = "attribute"                    # the object with an annotation: Base.v (inherited by Derived.v or not)
     return {"fmt": fmt, "pt": pt, "kind": kind, "inherit": rec["inherit"], "docA": docA, "docB": doc("B"),
-            "faults": inject_for(F), "declared": F, "order": [[x["o"], x["op"]] for x in rec["res"]],
-            "wfield": rec["kindA"] == "cls" and fmt != "plaintext"}
+            "faults": inject_for(F), "declared": F, "order": [[x["o"], x["op"]] for x in rec["res"]], "dup": bool(rec.get("dup")),
+            "wfield": rec["kindA"] == "cls" and fmt != "plaintext" and not rec.get("dup")}
 
 
 def _inj_job(job: Tuple[Dict[str, Any], str, bool]) -> Dict[str, Any]:
@@ -1219,7 +1226,7 @@ def run(ctx: Ctx) -> int:
     groups: Dict[str, Dict[str, List[Dict[str, Any]]]] = {}
     for rec in recs:
         perm_a = ",".join(x["op"] for x in rec["res"] if x["o"] == "A")
-        groups.setdefault(json.dumps([rec["F"], rec["inherit"], rec["kindA"]], sort_keys=True), {}).setdefault(perm_a, []).append(rec)
+        groups.setdefault(json.dumps([rec["F"], rec["inherit"], rec["kindA"], rec.get("dup", False)], sort_keys=True), {}).setdefault(perm_a, []).append(rec)
     chosen: List[Dict[str, Any]] = []
     for key in sorted(groups):
         for perm_a in sorted(groups[key]):
